@@ -61,6 +61,9 @@ Inductive c20case :=
    answered 4xx) whether the data the request names reads back as before *)
 | CReq (fam expect obs : N) (sentinel named : bool).
 
+(* shorthand used by the generated cases file: sentinel and named data intact *)
+Definition R (fam expect obs : N) : c20case := CReq fam expect obs true true.
+
 Section Run.
 Variable bases : list bytes.
 Definition base_of (i : nat) : bytes := match nth_error bases i with Some b => b | None => [] end.
@@ -94,9 +97,10 @@ Definition outcome_class (o : outcome) : N :=
 (* POST blocks with one frame: the gzip oracle maps the frame's compressed bytes back to [raw] *)
 Definition stub_frame : bytes := le_enc 4 3 ++ le_enc 4 0 ++ le_enc 4 0 ++ le_enc 4 1 ++ [0].
 Definition block_req_pred (fx indexing : bool) (raw : bytes) : N :=
-  if indexing then outcome_class (snd (handle (fun _ => Ok raw) fx (RBlocks stub_frame) []))
+  if indexing then outcome_class (snd (handle (fun _ => Ok raw) fx (RBlocks (2, 2, 2) stub_frame) []))
   else match ingest_block fx raw with
-       | Ok _ => o2xx | Err => o4xx | Panic => oPanic500
+       | Ok b => if fx && negb (dims_ok (2, 2, 2) b) then o4xx else o2xx
+       | Err => o4xx | Panic => oPanic500
        end.
 
 Definition elements_pred (fx : bool) (newE cur : list aelem) : N :=
@@ -133,6 +137,9 @@ Definition model_ok (c : c20case) : bool :=
    6 = (known finding, C13 patch pending) POST elements dropping a tag that another element of
        the same post adds: 500 "assignment to entry in nil map" *)
 Definition well_formed_block (data : bytes) : bool := is_ok (ingest_block true data).
+(* ... and of the size of the blocks of the instance it is posted to (16^3 voxels = 2x2x2 sub-blocks) *)
+Definition well_formed_for_instance (data : bytes) : bool :=
+  match ingest_block true data with Ok b => dims_ok (2, 2, 2) b | _ => false end.
 
 Definition req_class (fam expect obs : N) (sentinel named : bool) : nat :=
   if (obs =? oDead) || (obs =? oHang) || (obs =? oSlotKept) then 1%nat
@@ -171,7 +178,7 @@ Definition spec_class (c : c20case) : nat :=
   | CSparse _ _ obs _ => if is_panic_c obs then 3%nat else 0%nat
   | CBlockReq base m indexing obs sentinel =>
     let raw := mutate m (base_of base) in
-    req_class 0 (if well_formed_block raw then eWellFormed else eMalformed) obs sentinel true
+    req_class 0 (if well_formed_for_instance raw then eWellFormed else eMalformed) obs sentinel true
   | CElements newE cur obs sentinel =>
     req_class (if tag_swap newE cur then famAnnotationTagSwap else 0) eWellFormed obs sentinel true
   | CReq fam expect obs sentinel named => req_class fam expect obs sentinel named
